@@ -6,6 +6,17 @@ from pathlib import Path
 from typing import Annotated, Dict, List, Optional
 
 from experimaestro import Config, LightweightTask, Meta, Param, Task, pathgenerator
+from experimaestro.checkers import Checker
+
+
+class NonEmpty(Checker):
+    """a user-defined checker: the value has at least one element (len() of a number raises)"""
+
+    def check(self, value):
+        return len(value) > 0
+
+    def __str__(self):
+        return "non empty"
 
 
 class E1(Enum):
